@@ -125,7 +125,7 @@ def cases(draw: Any, prop: str, tier: str) -> dict:
     max_fan = 3 if quick else 4
     n = d.int(1, max_n)
     shape = None
-    if d.pct(2):
+    if d.pct(4 if prop == "C07" else 2):
         # far beyond the usual sizes: one component with dozens of children, or a chain dozens of levels deep
         shape = d.pick(["wide", "deep"])
         n = d.pick([34, 36, 40])
@@ -272,6 +272,11 @@ def cases(draw: Any, prop: str, tier: str) -> dict:
             case["fault_timeout"] = d.weighted([(10**6, 60), (None, 40)])  # with and without the startup watchdog
         elif mode == "timeout":
             case["timeout_delta"] = d.pick([-3, -2, -1, 1, 2, 5])
+            if d.pct(15):
+                # a start-up (and therefore a timeout) of more than half a minute of virtual time
+                k = next((x["id"] for x in nodes if x["start"] is not None), None)
+                if k is not None:
+                    nodes[k]["start"].append({"op": "sleep", "d": d.pick([31, 40, 100])})
         else:
             cand = [x["id"] for x in nodes if x["start"] is not None or x["prepare"] is not None]
             if cand:
@@ -283,6 +288,11 @@ def cases(draw: Any, prop: str, tier: str) -> dict:
                 case["lin"].append([0, "start"])  # the root's start() is last in every linearisation
             script = nodes[i][ph]
             script.insert(d.int(0, len(script)), {"op": "stall", "how": d.pick(["sleep", "never", "anext_default", "athrow"])})
+            if shape == "wide":
+                # ... and with it most of its many siblings
+                for x in nodes[1:]:
+                    if x["id"] != i and x["start"] is not None and d.pct(70):
+                        x["start"].insert(0, {"op": "stall", "how": "sleep"})
             # ("default": the timeout argument is left out - the documented default of 20 seconds applies)
             case["stall_timeout"] = "default" if d.pct(15) else d.int(1, 12)
     return case
